@@ -61,6 +61,13 @@ def resample_configs(rng, shape, interpolation=0):
            L('RandomScale', scale_limit=rng.choice([0.1, 0.3, (0.2, 0.5)]), interpolation=interpolation),
            L('LongestMaxSize', max_size=rng.randint(max(2, lo_long), 2 * max(H, W, D)), interpolation=interpolation),
            L('SmallestMaxSize', max_size=rng.randint(1, 2 * m), interpolation=interpolation)]
+    # boundary configurations: some (not all) target extents already equal the input's
+    keep = rng.sample([0, 1, 2], rng.randint(1, 2))
+    tgt = [H, W, D]
+    for a in range(3):
+        if a not in keep:
+            tgt[a] = max(1, tgt[a] + rng.choice([-2, -1, 1, 2, 3]))
+    out.append(L('Resize', height=tgt[0], width=tgt[1], depth=tgt[2], interpolation=interpolation))
     return out
 
 
